@@ -17,7 +17,7 @@ Proof. intros H. unfold window. rewrite firstn_length, skipn_length. lia. Qed.
 Lemma spec_kmers_in k s f r : In (f, r) (spec_kmers nt4 k s) ->
   exists w, length w = k /\ forallb (clean nt4) w = true /\ f = fwd_code nt4 w /\ r = rev_code nt4 w.
 Proof.
-  unfold spec_kmers. rewrite in_flat_map. intros [p [Hp Hin]]. apply in_seq in Hp.
+  rewrite spec_kmers_windows. rewrite in_flat_map. intros [p [Hp Hin]]. apply in_seq in Hp.
   unfold emit in Hin. destruct (forallb (clean nt4) (window s p k)) eqn:E; [|destruct Hin].
   destruct Hin as [Heq|[]]. inversion Heq; subst.
   exists (window s p k). split; [apply window_length; lia|]. split; [exact E|]. split; reflexivity.
@@ -251,7 +251,7 @@ Qed.
 
 Lemma spec_kmers_digits k s s2 : map f s = map g s2 -> spec_kmers f k s = spec_kmers g k s2.
 Proof.
-  intros H. unfold spec_kmers.
+  intros H. rewrite !spec_kmers_windows.
   assert (Hl : length s = length s2) by (rewrite <- (map_length f s), H, map_length; reflexivity).
   rewrite Hl. apply flat_map_ext. intros p. apply emit_digits. unfold window.
   rewrite <- !firstn_map, <- !skipn_map, H. reflexivity.
